@@ -180,7 +180,7 @@ impl Mon {
             self.r.count("C04.skipped_inside_bracket");
             return;
         }
-        if !(self.r.is("C04") || self.r.is("C09")) {
+        if !(self.r.is("C04") || self.r.is("C09") || self.r.is("C20")) {
             return;
         }
         let pos = positions(v, aq, true);
@@ -202,6 +202,16 @@ impl Mon {
             refm::REF_NO_BIAS.store(false, std::sync::atomic::Ordering::Relaxed);
             if hu.must_error.is_none() && !hu.health().certainly_neg() {
                 self.r.violate("C09", &format!("C09/{}/accepted-only-without-conservative-price-bias", info.kind.name()), format!("account {}: reference initial health {} (+-{}) with collateral at the low and debt at the high biased price, {} at the reported prices", ak, show(&hv.v), show(&hv.e), show(&hu.health().v)));
+            }
+        }
+        if hv.certainly_neg() && self.r.is("C20") && pos.iter().any(|p| p.bank.config.asset_tag > 2 && w_(&p.balance.asset_shares) >= one()) {
+            // pass-through collateral: an acceptance that can be explained only by valuing it above the
+            // conservative (confidence-discounted) price times the exact venue rate
+            refm::REF_NO_BIAS.store(true, std::sync::atomic::Ordering::Relaxed);
+            let hu = refm::ref_health(&pos, Req::Initial, info.now);
+            refm::REF_NO_BIAS.store(false, std::sync::atomic::Ordering::Relaxed);
+            if hu.must_error.is_none() && !hu.health().certainly_neg() {
+                self.r.violate("C20", &format!("C20/{}/accepted-only-with-venue-collateral-above-the-conservative-adjusted-price", info.kind.name()), format!("account {}: reference initial health {} (+-{}) with the confidence discount taken through the venue rate, {} without any discount", ak, show(&hv.v), show(&hv.e), show(&hu.health().v)));
             }
         }
         if hv.certainly_neg() {
